@@ -359,6 +359,12 @@ Proof. unfold lru_find. intros H. apply find_some in H as [H1 H2]. apply keqb_sp
 Lemma find_key_none k (it : list item) : lru_find keqb k it = None -> forall e, In e it -> keqb (fst e) k = false.
 Proof. unfold lru_find. intros H e He. exact (find_none _ _ H e He). Qed.
 
+Lemma lru_set_none k v (it : list item) : lru_find keqb k it = None -> lru_set keqb k v it = it ++ [(k, v)].
+Proof.
+  intros H. unfold lru_set. destruct (existsb (fun e : item => keqb (fst e) k) it) eqn:E; auto.
+  apply existsb_exists in E as (x & Hx & Ex). rewrite (find_key_none k it H x Hx) in Ex. discriminate.
+Qed.
+
 Lemma lu_other (tr : list outcome) (o : outcome) (e : item) : keqb (fst e) (key (o_arg o)) = false -> lastuse (fst e) (tr ++ [o]) = lastuse (fst e) tr.
 Proof. intros H. rewrite last_use_snoc. rewrite (keqb_false_sym _ _ H). reflexivity. Qed.
 
@@ -394,8 +400,10 @@ Proof.
   { intros k2 p Hp Hfr e2 E2 Hin2. apply live_in. split; auto. rewrite Forall_forall in Hl.
     destruct (Hl e2 Hin2) as (p' & Hp' & Hn' & _). rewrite E2, Hp in Hp'. injection Hp' as <-. rewrite <- Hn'. exact Hfr. }
   destruct (lru_find keqb k live) as [e|] eqn:Ef.
-  - (* hit *)
-    apply find_key_some in Ef as [Hin Hk]. cbn [fst snd l_items l_calls].
+  - (* hit: the entry found after the sweep is unexpired, so the stale-entry branch is dead here *)
+    apply find_key_some in Ef as [Hin Hk].
+    assert (Hfre : fresh valid now (fst (snd e)) = true) by (apply live_in in Hin; tauto).
+    rewrite Hfre. cbn [fst snd l_items l_calls].
     set (o := mkO a now true (snd (snd e))).
     assert (Hrem : forall x, In x (lru_remove keqb k live) -> keqb (fst x) (key (o_arg o)) = false).
     { intros x Hx. unfold lru_remove in Hx. apply filter_In in Hx as [_ Hx]. cbn. apply negb_true_iff in Hx. exact Hx. }
@@ -429,7 +437,7 @@ Proof.
         -- right. exists ks. split; auto. split; auto. intros k' Hk'. specialize (Hlt k' Hk').
            rewrite (last_use_snoc k2). change (keqb (key (o_arg o)) k2) with (keqb k k2). rewrite Ekk. pose proof (last_use_mono k' tr o). lia.
   - (* miss *)
-    pose proof (find_key_none k live Ef) as Hne. cbn [fst snd l_items l_calls].
+    pose proof (find_key_none k live Ef) as Hne. rewrite (lru_set_none _ _ _ Ef). cbn [fst snd l_items l_calls].
     set (r := f a (l_calls s)). set (o := mkO a now false r).
     assert (Hord : StronglySorted (lu_lt (tr ++ [o])) (live ++ [(k, (now, r))])).
     { apply order_snoc; auto. }
@@ -529,7 +537,8 @@ Lemma lru_call_contract s tr a :
 Proof.
   intros Hinv. pose proof (SSorted_nodup tr _ (inv_order _ _ Hinv)) as Hnd.
   unfold lru_call. destruct (lru_find keqb (key a) (lru_live valid (l_now s) (l_items s))) as [e|] eqn:Ef; cbn [fst snd o_hit o_res o_arg o_now l_calls].
-  - apply find_key_some in Ef as [Hin Hk]. apply live_in in Hin as [Hin Hfr].
+  - apply find_key_some in Ef as [Hin Hk]. apply live_in in Hin as [Hin Hfr]. rewrite Hfr.
+    cbn [fst snd o_hit o_res o_arg o_now l_calls].
     destruct e as [k [ts r]]. cbn in Hk, Hfr. subst k.
     split; [split; auto; intros _; exists ts, r; auto|].
     split; [intros _ ts' r' Hin'; cbn; pose proof (nodup_fst_inj _ _ _ _ Hnd Hin Hin') as E; congruence|].
@@ -577,8 +586,9 @@ Proof.
   intros Hinv live Hmiss Hlen Hpos.
   assert (Hlive_o : StronglySorted (lu_lt tr) live) by (apply SSorted_filter; apply (inv_order _ _ Hinv)).
   unfold lru_call in *. fold live in Hmiss |- *.
-  destruct (lru_find keqb (key a) live) as [e|] eqn:Ef; [discriminate|].
-  cbn [fst l_items]. destruct live as [|v rest] eqn:El; [cbn in Hlen; lia|].
+  destruct (lru_find keqb (key a) live) as [e|] eqn:Ef.
+  { apply find_key_some in Ef as [Hin _]. apply live_in in Hin as [_ Hfr]. rewrite Hfr in Hmiss. discriminate. }
+  rewrite (lru_set_none _ _ _ Ef). cbn [fst l_items]. destruct live as [|v rest] eqn:El; [cbn in Hlen; lia|].
   exists v, rest. split; auto. split.
   - unfold lru_trim. rewrite app_length. cbn [length] in *.
     assert (E : Nat.ltb mx (S (length rest) + 1) = true) by (apply Nat.ltb_lt; lia). rewrite E. reflexivity.
